@@ -104,7 +104,9 @@ def render_operand(p, a, asy, names):
     call = "%s(%d)" % (probe, a.id)
     if a.cap:
         snaps = "".join(" %s(%d, &%s);" % ("snapo" if p.opt else "snap", sid, names[b]) for sid, b in a.snaps)
-        return "{ cap(%d);%s %s }" % (a.cap, snaps, call)
+        # every third capture is spelled as a labelled block (still a block expression)
+        label = "'blk%d: " % a.cap if a.cap % 3 == 0 else ""
+        return "%s{ cap(%d);%s %s }" % (label, a.cap, snaps, call)
     return call
 
 
